@@ -1,6 +1,6 @@
 (* The comparison functions that the correspondence engine evaluates on harness output
    (extracted to OCaml for volume; the same definitions run under vm_compute for the cross-check). *)
-From AidlV Require Export Run.Sx Model.Validation Spec.Master Spec.Nodes Model.ParserState.
+From AidlV Require Export Run.Sx Model.Validation Spec.Master Spec.Nodes Model.ParserState Model.Diag Model.Serde.
 
 (* verdicts: 0 = holds, 1 = fails, 2 = the harness output could not be decoded, 3 = unknown check *)
 Definition run_bool {X} (d : sx -> option X) (f : X -> bool) (s : sx) : N :=
@@ -339,6 +339,39 @@ Definition corr_C12 (c : list hop * list (list str)) : bool :=
      | _, _ => true
      end) [] ops keys.
 
+(* ------------------------------------------------------------------ C20: P lines (source, parse-stage result, raw expectation vectors) *)
+Record pcase := PC { pc_src : str; pc_fr : file_result; pc_expected : list (list str) }.
+Definition d_pcase (s : sx) : option pcase :=
+  match s with
+  | L [src; fr; ex] => do src' <- d_str src; do fr' <- d_fr fr; do ex' <- d_list (d_list d_str) ex; Some (PC src' fr' ex')
+  | _ => None
+  end.
+Definition has_expectation (d : diag) : bool := ctx_is "unrecognized EOF" d || ctx_is "unrecognized token" d.
+(* verdict: 0 every name present and nothing extra; 4 only the recorded known class (v[len-2] missing, |v| >= 3); 1 anything else *)
+Definition spec_C20 (s : sx) : N :=
+  match d_pcase s with
+  | None => 2
+  | Some c =>
+      let ds := filter has_expectation (fr_diags (pc_fr c)) in
+      if negb (Nat.eqb (length ds) (length (pc_expected c))) then 1
+      else
+        fold_left (fun acc '(d, v) =>
+          let n := names_in (d_msg d) in
+          if list_eqb str_eqb n v then acc
+          else if Nat.leb 3 (length v) && list_eqb str_eqb n (remove_nth (length v - 2) v)
+               then (if N.eqb acc 1 then 1 else 4)
+               else 1) (combine ds (pc_expected c)) 0
+  end.
+(* the model of the formatter reproduces the last line of every such message *)
+Definition corr_C20 (c : pcase) : bool :=
+  let ds := filter has_expectation (fr_diags (pc_fr c)) in
+  Nat.eqb (length ds) (length (pc_expected c)) &&
+  forallb (fun '(d, v) => str_eqb (last_line (d_msg d)) (expected_token_str v)) (combine ds (pc_expected c)).
+
+(* ------------------------------------------------------------------ C19: S lines (all trees of a project, parse-stage and validated) *)
+Definition corr_C19 (trees : list aidl) : bool :=
+  forallb (fun a => option_eqb aidl_eqb (roundtrip a) (Some a)) trees.
+
 Definition checks : list (string * (sx -> N)) :=
   [ ("corr_validate"%string, run_bool d_vcase corr_validate);
     ("corr_C09"%string, run_bool d_vcase corr_C09);
@@ -352,7 +385,9 @@ Definition checks : list (string * (sx -> N)) :=
     ("corr_C16"%string, run_bool d_lcase corr_C16); ("spec_C16"%string, run_bool d_lcase spec_C16);
     ("spec_C17_names"%string, run_bool d_tcase spec_C17_names); ("spec_C17_refs"%string, run_bool d_vcase spec_C17_refs);
     ("spec_C11_sorted"%string, run_bool d_vcase spec_C11_sorted);
-    ("corr_C12"%string, run_bool d_hcase corr_C12) ].
+    ("corr_C12"%string, run_bool d_hcase corr_C12);
+    ("spec_C20"%string, spec_C20); ("corr_C20"%string, run_bool d_pcase corr_C20);
+    ("corr_C19"%string, run_bool (fun s => match s with L [x] => d_list d_aidl x | _ => None end) corr_C19) ].
 
 Definition dispatch (name : str) (s : sx) : N :=
   match find (fun c => str_eqb (lit (fst c)) name) checks with
